@@ -103,6 +103,8 @@ fn check(c: &SplitCase, obs: &mut Obs) -> Verdict {
         ds.sort();
         if ds.len() >= 2 { opts.stale_cache_until = Some(ds[ds.len() / 2]); }
     }
+    // and some run with --force-download over a cache whose every rate is wrong: whatever else is in the run, nothing of that cache may be used
+    if opts.stale_cache_until.is_none() && c.all.rows.len() % 5 == 2 && opts.usd_years.map(|(a, b)| b > a).unwrap_or(false) { opts.forced_over_wrong_cache = true; }
     let csv = files_of(&c.all, &c.layout).iter().map(|(n, t)| format!("--- {n}\n{t}")).collect::<Vec<_>>().join("");
     let (ra, rb, rab) = match (run(&sub_case(&c.all, &c.layout, &a), &opts), run(&sub_case(&c.all, &c.layout, &b), &opts), run(&(c.all.clone(), c.layout.clone()), &opts)) { (Ok(x), Ok(y), Ok(z)) => (x, y, z), (Err(v), _, _) | (_, Err(v), _) | (_, _, Err(v)) => return v };
     let (sa, sb, sab) = match (ra, rb, rab) {
@@ -168,11 +170,12 @@ fn check(c: &SplitCase, obs: &mut Obs) -> Verdict {
     if !c.all.opening.is_empty() { obs.class("opening-position"); }
     if !c.layout.is_empty() { obs.class(format!("files:{}", files_of(&c.all, &c.layout).len())); }
     if opts.stale_cache_until.is_some() { obs.class("rate-cache-left-by-an-earlier-run"); }
+    if opts.forced_over_wrong_cache { obs.class("force-download-over-a-wrong-cache"); }
     Verdict::Pass
 }
 
 pub fn def() -> PropDef {
-    let mut d = PropDef::new("C08", "a generated multi-security input is split into two inputs A and B over disjoint symbols (B optionally carrying a planted bookkeeping failure from the C04 list, or a split combination the tool refuses), keeping the original interleaving for A+B (a third of the cases spread the rows over two or three input files, the same spread in all three runs; rows may carry a USD commission whose rate the tool looks up itself next to an amount that needs no look-up; some start from an exchange-rate cache as an earlier run in the middle of the history would have left it); three runs. Every cell of every table of A (resp. B) must be identical in A+B; aggregate(A+B) per year = aggregate(A) + aggregate(B) = sum of the accepted securities' own yearly footers, within 1e-9; A+B must not fail as a whole when only one half has a problem; with a failing half, --csv-output-dir must still write the healthy securities' files (identical to a run without the failing half) and the aggregate file. Non-trivial = B contains a bookkeeping failure and A has at least one gain-bearing row. Distinct = distinct case content.");
+    let mut d = PropDef::new("C08", "a generated multi-security input is split into two inputs A and B over disjoint symbols (B optionally carrying a planted bookkeeping failure from the C04 list, or a split combination the tool refuses), keeping the original interleaving for A+B (a third of the cases spread the rows over two or three input files, the same spread in all three runs; rows may carry a USD commission whose rate the tool looks up itself next to an amount that needs no look-up; some start from an exchange-rate cache as an earlier run in the middle of the history would have left it, some run with --force-download over a cache whose every rate is wrong); three runs. Every cell of every table of A (resp. B) must be identical in A+B; aggregate(A+B) per year = aggregate(A) + aggregate(B) = sum of the accepted securities' own yearly footers, within 1e-9; A+B must not fail as a whole when only one half has a problem; with a failing half, --csv-output-dir must still write the healthy securities' files (identical to a run without the failing half) and the aggregate file. Non-trivial = B contains a bookkeeping failure and A has at least one gain-bearing row. Distinct = distinct case content.");
     d.assumptions = vec!["affiliate display spelling is normalised (first spelling seen wins in the tool; not a figure)"];
     d.subs.push(Box::new(Sub::<SplitCase> { name: "split", cases_quick: 36_000, cases_thorough: 500_000, strategy: Box::new(strategy), to_json: SplitCase::to_json, from_json: SplitCase::from_json, check }));
     d
